@@ -1,3 +1,4 @@
+#ifndef NATIVE_GEN   /* translation-validation builds use the real libc */
 /* Content model of the printf family for CBMC harnesses (E1/E2).
  * Everything written through FILE* streams is appended to one capture buffer verif_out[];
  * vsnprintf/snprintf/sprintf/vsprintf format into the caller's buffer with C99 semantics
@@ -132,5 +133,6 @@ int putc(int c, FILE *fp) { return fputc(c, fp); }
 int fputs(const char *p, FILE *fp) { int n = 0; (void)fp; while(p[n]) n++; out_append(p, n); return 0; }
 int puts(const char *p) { fputs(p, (FILE *)0); fputc('\n', (FILE *)0); return 0; }
 int fflush(FILE *fp) { (void)fp; return 0; }
+#endif
 #endif
 #endif
